@@ -194,6 +194,86 @@ def templates():
     return T
 
 
+def differential_modules(start):
+    """expansion against expansion: the same fieldless enum (explicit discriminants, so that position != discriminant) with trait t alone
+    and with every other trait educed next to it must feed the same data to a hasher / order the same way.  The per-trait oracles of
+    C05 / C03 leave the variant tag free (any injective tag satisfies them), so a fast path keyed on a bystander trait needs this."""
+    from .runner import Harness, Module
+    decl = lambda traits, derives: f'#[derive(Educe)]\n#[educe({traits})]\n{derives}pub enum E {{ A = 1, B = 5, C, D = 3 }}\n'
+    body = ('pub mod alone { use educe::Educe; ' + decl('Hash', '#[derive(Clone, Copy)]\n') + '}\n'
+            + 'pub mod with_copy { use educe::Educe; ' + decl('Hash, Clone, Copy', '') + '}\n'
+            + 'pub mod with_cmp { use educe::Educe; ' + decl('PartialEq, Eq, Hash, PartialOrd, Ord', '#[derive(Clone, Copy)]\n') + '}\n'
+            + 'pub mod with_all { use educe::Educe; ' + decl('Debug(name = true), Clone, Copy, PartialEq, Eq, PartialOrd, Ord, Hash, Default', '').replace('A = 1', '#[educe(Default)] A = 1') + '}\n'
+            + 'pub mod ord_alone { use educe::Educe; ' + decl('PartialOrd, Ord', '#[derive(PartialEq, Eq, Clone, Copy)]\n') + '}\n'
+            + 'pub mod pord_alone { use educe::Educe; ' + decl('PartialOrd', '#[derive(PartialEq, Clone, Copy)]\n') + '}\n')
+    pick = lambda m: f'match s {{ 0 => {m}::E::A, 1 => {m}::E::B, 2 => {m}::E::C, _ => {m}::E::D }}'
+    h1 = Harness('h_hash_same', unwind=8, covers=['reached'])
+    body += h1.attrs() + f'''pub fn h_hash_same() {{
+    let s: u8 = kani::any::<u8>() % 4;
+    let r0 = rec_of(&{pick('alone')});
+    kani::cover!(true, "reached");
+    assert!(r0.same(&rec_of(&{pick('with_copy')})), "Hash feeds different data once Copy / Clone are educed too");
+    assert!(r0.same(&rec_of(&{pick('with_cmp')})), "Hash feeds different data once PartialEq / Eq / PartialOrd / Ord are educed too");
+    assert!(r0.same(&rec_of(&{pick('with_all')})), "Hash feeds different data once every other trait is educed too");
+}}
+'''
+    h2 = Harness('h_ord_same', covers=['reached'])
+    pick2 = lambda m, v: f'match {v} {{ 0 => {m}::E::A, 1 => {m}::E::B, 2 => {m}::E::C, _ => {m}::E::D }}'
+    body += h2.attrs() + f'''pub fn h_ord_same() {{
+    let s: u8 = kani::any::<u8>() % 4;
+    let t: u8 = kani::any::<u8>() % 4;
+    let o = Ord::cmp(&{pick2('ord_alone', 's')}, &{pick2('ord_alone', 't')});
+    kani::cover!(true, "reached");
+    assert!(PartialOrd::partial_cmp(&{pick2('pord_alone', 's')}, &{pick2('pord_alone', 't')}) == Some(o), "stand-alone PartialOrd orders differently from Ord");
+    assert!(Ord::cmp(&{pick2('with_cmp', 's')}, &{pick2('with_cmp', 't')}) == o, "Ord orders differently once Hash is educed too");
+    assert!(Ord::cmp(&{pick2('with_all', 's')}, &{pick2('with_all', 't')}) == o && PartialOrd::partial_cmp(&{pick2('with_all', 's')}, &{pick2('with_all', 't')}) == Some(o), "Ord / PartialOrd order differently once every other trait is educed too");
+}}
+'''
+    mods = [Module(f'm{start:04d}', 'differential: fieldless enum { A = 1, B = 5, C, D = 3 } with Hash / Ord alone vs. with every other trait educed (expansion against expansion)', body, [h1, h2],
+                   sample=dict(type_definition='enum E { A = 1, B = 5, C, D = 3 }'), functions=FUNCTIONS)]
+    # payload-carrying shapes: each trait alone vs. all traits together
+    tdecl = lambda traits, derives, dm: (f'#[derive(Educe)]\n#[educe({traits})]\n{derives}pub struct St {{ pub a: u8, pub b: u16 }}\n'
+                                         f'#[derive(Educe)]\n#[educe({traits})]\n{derives}pub enum En {{ {dm}A(u8), B {{ x: u8, y: u8 }}, C }}\n')
+    ALLT = 'Debug, Clone, Copy, PartialEq, Eq, PartialOrd, Ord, Hash, Default'
+    body = 'use crate::support::dbg::*;\n'
+    body += 'pub mod all { use educe::Educe; ' + tdecl(ALLT, '', '#[educe(Default)] ') + '}\n'
+    body += 'pub mod hash { use educe::Educe; ' + tdecl('Hash', '', '') + '}\n'
+    body += 'pub mod peq { use educe::Educe; ' + tdecl('PartialEq', '', '') + '}\n'
+    body += 'pub mod ord { use educe::Educe; ' + tdecl('PartialOrd, Ord', '#[derive(PartialEq, Eq)]\n', '') + '}\n'
+    body += 'pub mod dbg1 { use educe::Educe; ' + tdecl('Debug', '', '') + '}\n'
+    body += 'pub mod dflt { use educe::Educe; ' + tdecl('Default', '', '#[educe(Default)] ') + '}\n'
+    mk = lambda m: f'(|s: u8, p: u8, q: u8| match s % 3 {{ 0 => {m}::En::A(p), 1 => {m}::En::B {{ x: p, y: q }}, _ => {m}::En::C }})'
+    h3 = Harness('h_payload_same', unwind=8, covers=['reached'])
+    body += h3.attrs() + f'''pub fn h_payload_same() {{
+    let (s, p, q, t, u, v): (u8, u8, u8, u8, u8, u8) = (kani::any(), kani::any(), kani::any(), kani::any(), kani::any(), kani::any());
+    kani::cover!(true, "reached");
+    assert!(rec_of(&{mk('hash')}(s, p, q)).same(&rec_of(&{mk('all')}(s, p, q))), "enum Hash alone vs. with every trait");
+    assert!(rec_of(&hash::St {{ a: p, b: q as u16 }}).same(&rec_of(&all::St {{ a: p, b: q as u16 }})), "struct Hash alone vs. with every trait");
+    assert!(({mk('peq')}(s, p, q) == {mk('peq')}(t, u, v)) == ({mk('all')}(s, p, q) == {mk('all')}(t, u, v)), "enum PartialEq alone vs. with every trait");
+    assert!(Ord::cmp(&{mk('ord')}(s, p, q), &{mk('ord')}(t, u, v)) == Ord::cmp(&{mk('all')}(s, p, q), &{mk('all')}(t, u, v)), "enum Ord alone vs. with every trait");
+    assert!(Ord::cmp(&ord::St {{ a: p, b: q as u16 }}, &ord::St {{ a: u, b: v as u16 }}) == Ord::cmp(&all::St {{ a: p, b: q as u16 }}, &all::St {{ a: u, b: v as u16 }}), "struct Ord alone vs. with every trait");
+    let d0 = <dflt::En as Default>::default();
+    let d1 = <all::En as Default>::default();
+    assert!(matches!((d0, d1), (dflt::En::A(0), all::En::A(0))), "enum Default alone vs. with every trait");
+}}
+'''
+    h4 = Harness('h_debug_same', unwind=48, covers=['reached'])
+    body += h4.attrs() + f'''pub fn h_debug_same() {{
+    let s: u8 = kani::any();
+    let (b1, r1) = render(&{mk('dbg1')}(s, 7, 9), false);
+    let (b2, r2) = render(&{mk('all')}(s, 7, 9), false);
+    kani::cover!(true, "reached");
+    assert!(r1.is_ok() && r2.is_ok() && !b1.overflow && b1.same(&b2), "enum Debug alone vs. with every trait");
+    let (b3, r3) = render(&dbg1::St {{ a: 3, b: 300 }}, false);
+    let (b4, r4) = render(&all::St {{ a: 3, b: 300 }}, false);
+    assert!(r3.is_ok() && r4.is_ok() && !b3.overflow && b3.same(&b4), "struct Debug alone vs. with every trait");
+}}
+'''
+    mods.append(Module(f'm{start + 1:04d}', 'differential: struct St { a, b } and enum En { A(u8), B { x, y }, C } with each trait alone vs. with every trait educed (expansion against expansion)', body, [h3, h4],
+                       sample=dict(type_definition='struct St { a: u8, b: u16 }; enum En { A(u8), B { x: u8, y: u8 }, C }'), functions=FUNCTIONS))
+    return mods
+
+
 def gen(tier, seed):
     mods = []
     n = 0
@@ -235,6 +315,7 @@ def gen(tier, seed):
             if m is not None:
                 mods.append(m)
                 n += 1
+    mods += differential_modules(n)
     return mods
 
 
